@@ -17,6 +17,7 @@ from __future__ import annotations
 import copy
 import itertools
 import json
+import urllib.parse
 import re
 from typing import Any
 from urllib.parse import parse_qsl, unquote, urlsplit
@@ -1075,7 +1076,13 @@ def judge_c(res: Result, item: dict, doc: dict, exchanges: list, machine: Any, e
                 res.count("c_undecided_null_value")
                 continue
             res.count("c_parameters_checked")
-            if case_value is ABSENT or not rtexpr.same(case_value, expected):
+            same = case_value is not ABSENT and rtexpr.same(case_value, expected)
+            if not same and location == "path" and isinstance(case_value, str) and isinstance(expected.value, str):
+                # Case.path_parameters holds text as it goes into the URL (generated values are percent-encoded there too):
+                # read it through that encoding; what reaches the route is compared below on the wire
+                same = urllib.parse.unquote(case_value) == expected.value
+                res.count("c_path_values_read_through_percent_encoding")
+            if not same:
                 res.violation({**sig, "kind": "link_parameter_not_the_denoted_value"}, pdetail)
                 continue
             if isinstance(expected.value, (str, int)) and not isinstance(expected.value, bool) and _wire_safe(expected.value, location):
